@@ -24,6 +24,7 @@ type replayDriver struct {
 var replayTable = []replayDriver{
 	{Funcs: []string{"iobroker.Broker.proxyOut#1"}, PkgDir: "internal/iobroker", File: "iobroker_readerleak_test.go", Test: "TestVerifReplayReaderLeak"},
 	{Funcs: []string{"iobroker.Broker.ConnectInOut"}, PkgDir: "internal/iobroker", File: "iobroker_crosspair_test.go", Test: "TestVerifReplayCrossPair"},
+	{Funcs: []string{"uu.AppendEncode", "uu.AppendDecode", "uu.MaxEncodedLen", "uu.MaxDecodedLen", "bounded.uu"}, PkgDir: "lib/uu", File: "uu_contract_test.go", Test: "TestVerifReplayUUContract"},
 	{Funcs: []string{"shellfuncsfile.FromPerl"}, PkgDir: "lib/shellfuncsfile", File: "shellfuncsfile_emptyperl_test.go", Test: "TestVerifReplayEmptyPerl"},
 	{Funcs: []string{"shellfuncsfile.Converter.fromSingleFile", "shellfuncsfile.Converter.fromDirectory"}, PkgDir: "lib/shellfuncsfile", File: "shellfuncsfile_c17_test.go", Test: "TestVerifReplayC17"},
 	{Funcs: []string{"simpleshell.Go"}, PkgDir: "lib/simpleshell", File: "simpleshell_defaultclient_test.go", Test: "TestVerifReplayDefaultClient"},
@@ -42,7 +43,7 @@ func runOverlayTest(pkgDir, driverFile, test string, env []string) (string, bool
 	b, _ := json.Marshal(ov)
 	ovf := filepath.Join(tmp, "ov.json")
 	os.WriteFile(ovf, b, 0o644)
-	cmd := exec.Command("go", "test", "-tags", "verif", "-overlay", ovf, "-vet=off", "-count=1", "-timeout", "60s", "-run", "^"+test+"$", ".")
+	cmd := exec.Command("go", "test", "-v", "-tags", "verif", "-overlay", ovf, "-vet=off", "-count=1", "-timeout", "120s", "-run", "^"+test+"$", ".")
 	cmd.Dir = filepath.Join(repoRoot, pkgDir)
 	cmd.Env = append(os.Environ(), "GOFLAGS=-mod=mod", "GOPROXY=off", "GOSUMDB=off", "GOTOOLCHAIN=local")
 	cmd.Env = append(cmd.Env, env...)
@@ -51,7 +52,7 @@ func runOverlayTest(pkgDir, driverFile, test string, env []string) (string, bool
 	go func() { out, _ = cmd.CombinedOutput(); close(done) }()
 	select {
 	case <-done:
-	case <-time.After(90 * time.Second):
+	case <-time.After(150 * time.Second):
 		if cmd.Process != nil {
 			cmd.Process.Kill()
 		}
